@@ -40,3 +40,4 @@ def run(idx, rep, tier):
     generic2.r_axispair(idx, rep, [m.name for m in idx.lib_modules()], floor=0)      # one site today; a vectorised test has no component pairs to mis-pair
     degree.r_tolunit(idx, rep, [m.name for m in idx.lib_modules() if "hydroelastic" not in m.name and "visual" not in m.name and "plot" not in m.name and "benchmark" not in m.name], floor=12, face_arrays=degree.EPA_FACES)
     unpack.r_unpack(idx, rep, floor=88)
+    generic2.r_axisscale(idx, rep, [m.name for m in idx.lib_modules()], floor=0)
